@@ -17,6 +17,7 @@ import json
 import os
 import shutil
 import threading
+import time
 from concurrent.futures import ThreadPoolExecutor
 
 import vlib
@@ -27,7 +28,8 @@ INVARIANTS = ("TypeOK NbrSymmetric NbrExact ComponentsPartition ComponentsAlgo C
               "CountExactQuiescent BorderExact QueuePartition TopsAreBest")
 # UBSan's per-access null/alignment/vptr checks double the compile time of this json-heavy
 # harness and add nothing here (ASan reports the same faults as crashes)
-BUILD_EXTRA = ("-fno-sanitize=vptr,null,alignment,object-size",)
+# (-g1: line tables only - enough for ASan reports, a third of the compile time less)
+BUILD_EXTRA = ("-fno-sanitize=vptr,null,alignment,object-size", "-g1")
 
 
 def C(name, kind, dim, axis, rest=(0,), bounds=None, limit=None, prios=(1,), bycount=False, extmax=True,
@@ -174,7 +176,7 @@ def _configs(tier):
              [(neg, True, 1000), (farsd, False, 500)]),
             (C("gridb-3d-plus-l6", "GridB", 3, a3, a3, limit=6, bycount=True, plus=True), [(far, False, 1000)]),
             (C("gridb-3d-2x2x2-l4", "GridB", 3, a2, a2, bounds=(0, 1), limit=4, bycount=True, maxcells=6), [(neg, False, 1000)]),
-            (C("gridn-3d-3x2x2-l3", "GridN", 3, a3, a2, bounds=(1, 2), limit=3, maxcells=6), [(farsd, False, 1000)]),
+            (C("gridn-3d-2x2x2-l3", "GridN", 3, a2, a2, bounds=(1, 2), limit=3), [(farsd, False, 1000)]),
         ]
         mcs += [
             C("mc-gridb-1d-7", "GridB", 1, (0, 1, 2, 3, 4, 5, 6), bounds=(1, 5), limit=2, prios=(1, 2), bycount=True, maxpending=2),
@@ -209,6 +211,8 @@ def _job_dump(c):
     # run_tlc hands lines that are still buffered when TLC exits back as plain text: the last
     # transitions may be among them
     for line in res.out.splitlines():
+        if line.startswith('"{') and line.endswith('}"'):      # PrintT shows the JSON text as a TLA+ string
+            line = line[1:-1].replace('\\"', '"').replace("\\\\", "\\")
         if line.startswith('{"') and line.endswith("}"):
             try:
                 edges.append(json.loads(line))
@@ -267,6 +271,8 @@ def run(tier):
     ]
     mcs, dumps, misuse, rec = _configs(tier)
     build = {}
+    t0 = time.time()
+    phases = {}
 
     def _build():
         try:
@@ -276,7 +282,7 @@ def run(tier):
 
     bt = threading.Thread(target=_build)
     bt.start()
-    pool = ThreadPoolExecutor(max_workers=max(2, vlib.NCPU - 2))
+    pool = ThreadPoolExecutor(max_workers=vlib.NCPU + 8)
     try:
         # 1. dump runs (workers=1 each, invariants checked, side by side), then the larger models
         dump_f = [pool.submit(_job_dump, c) for c, _ in dumps]
@@ -301,6 +307,7 @@ def run(tier):
         ck.set("misuse_documented", "Strict=FALSE: CountExactQuiescent violated after %d states (adjacent pending cells / "
                "removal next to a pending cell) - API misuse, not a finding" % res.distinct)
 
+        phases["model_checking_done"] = round(time.time() - t0, 1)
         graphs = []
         need_all = {"Create", "Add", "Remove", "Destroy", "Clear"}
         tot_in = tot_out = mig_in = mig_out = 0
@@ -330,18 +337,21 @@ def run(tier):
         ck.set("model_border_flips", {"to_interior": tot_in, "to_border": tot_out})
         ck.set("model_heap_migrations", {"external_to_internal": mig_in, "internal_to_external": mig_out})
 
+        phases["dumps_done"] = round(time.time() - t0, 1)
         # 2. replay on the real classes
         bt.join()
+        phases["build_done"] = round(time.time() - t0, 1)
         if "err" in build:
             raise build["err"]
         binary = build["bin"]
+        # (the recordings first: record + TLC validation is the longest single job)
+        rec_f = [pool.submit(_job_record, binary, n, c, o, ev, i) for i, (n, c, o, ev) in enumerate(rec)]
         jobs = []
         by_name = {c["name"]: vs for c, vs in dumps}
         for c, gpath, st in graphs:
             for opts, pairs, walks in by_name[c["name"]]:
                 variant = _variant(c, **opts)
                 jobs.append((c, gpath, variant, pool.submit(_job_replay, binary, gpath, variant, pairs, walks)))
-        rec_f = [pool.submit(_job_record, binary, n, c, o, ev, i) for i, (n, c, o, ev) in enumerate(rec)]
         real_in = real_out = 0
         for c, gpath, variant, f in jobs:
             rc, out, err = f.result()
@@ -378,6 +388,7 @@ def run(tier):
         if not ck.violations and not (real_in and real_out):
             raise FrameworkError("vacuity gate: the real cells never flipped between border and interior during replay")
         ck.set("observed_border_flips", {"to_interior": real_in, "to_border": real_out})
+        phases["replay_done"] = round(time.time() - t0, 1)
         ck.set("exhaustive", True)
 
         # 3. recorded random histories validated against the specification
@@ -407,6 +418,8 @@ def run(tier):
                 bad = evs[prefix] if prefix < len(evs) else {}
                 ck.violation("trace:%s:%s" % (c["kind"], bad.get("e")), "recorded %s execution [%s] rejected by the Grid specification "
                              "at event %d of %d: %s" % (c["kind"], variant, prefix + 1, nev, json.dumps(bad)[:600]), rp)
+        phases["traces_done"] = round(time.time() - t0, 1)
+        ck.set("phase_wall_s", phases)   # informative only
     finally:
         pool.shutdown(wait=True)
         bt.join()
